@@ -304,6 +304,7 @@ fn fire(cl: &mut crate::srv::Cl, rpc: &str, i: u64, n_stream: usize, v: &[f32]) 
                 (adm, 1 - adm.min(1))
             }
             Err(s) if lim(s.code()) => (0, 1),
+            Err(s) if matches!(s.code(), Code::Unknown | Code::Unavailable | Code::Cancelled | Code::DeadlineExceeded) => (0, 0),
             Err(_) => (1, 0),
         },
         "BulkInsert(stream)" => match cl.bulk_insert((0..n_stream as u64).map(|k| item(1 + k % 4)).collect()) {
